@@ -20,8 +20,6 @@ fn rel<T: AbsDiffEq<Epsilon = Xq> + RelativeEq + UlpsEq>(x: &[Xq], a: &T, b: &T)
     }
 }
 
-fn b2(x: &[Xq]) -> Basis2<Xq> { unsafe { std::mem::transmute::<Matrix2<Xq>, Basis2<Xq>>(m2(x)) } }
-fn b3(x: &[Xq]) -> Basis3<Xq> { unsafe { std::mem::transmute::<Matrix3<Xq>, Basis3<Xq>>(m3(x)) } }
 fn eulr(x: &[Xq]) -> Euler<Rad<Xq>> { Euler::new(Rad(x[0]), Rad(x[1]), Rad(x[2])) }
 fn dq(x: &[Xq]) -> Decomposed<Vector3<Xq>, Quaternion<Xq>> { Decomposed { scale: x[0], rot: qn(&x[1..5]), disp: v3(&x[5..8]) } }
 fn db3(x: &[Xq]) -> Decomposed<Vector3<Xq>, Basis3<Xq>> { Decomposed { scale: x[0], rot: b3(&x[1..10]), disp: v3(&x[10..13]) } }
